@@ -71,9 +71,10 @@ def model_checking(ctx):
 
     def one(j):
         name, module, cfg, want, prop, to = j
-        return name, vlib.run_tlc(ctx, FAMILY, module, cfg, timeout=to, name=name, workers=2 if want == "ok" else 1, heap="3g")
+        # quick tier: never more than 4 TLC workers in total (4 single-worker JVMs at a time)
+        return name, vlib.run_tlc(ctx, FAMILY, module, cfg, timeout=to, name=name, workers=3 if want == "ok" and ctx.thorough else 1, heap="3g")
     res = {}
-    with cf.ThreadPoolExecutor(max_workers=3 if not ctx.thorough else 4) as ex:
+    with cf.ThreadPoolExecutor(max_workers=4) as ex:
         for name, r in ex.map(one, jobs):
             res[name] = r
     states = transitions = 0
